@@ -125,3 +125,32 @@ def _flatten_target(t, val, stmt):
             yield from _flatten_target(el.value if isinstance(el, ast.Starred) else el, val.elts[i] if lit else None, stmt)
     else:
         yield t, val, stmt
+
+
+def _is_manager_ctor(prog, f, e) -> bool:
+    """Manager(), <context>.Manager(), SyncManager(), optionally followed by .__enter__() / .start()"""
+    while isinstance(e, ast.Call) and isinstance(e.func, ast.Attribute) and e.func.attr in ("__enter__", "start"):
+        e = e.func.value
+    if isinstance(e, ast.Call):
+        name = ext_name(prog, f, e) or src(e.func)
+        return name.split(".")[-1] in ("Manager", "SyncManager")
+    return False
+
+
+def manager_fields(prog, cls) -> set:
+    """fields of ``cls`` (along its repo MRO) that are assigned a multiprocessing manager: found by the constructor call, not by name"""
+    out = set()
+    for k in cls.repo_mro():
+        for f in k.methods.values():
+            if f.self_name is None:
+                continue
+            for t, val, _st in iter_stores(f.node):
+                d = dotted(t)
+                if d and len(d) == 2 and d[0] == f.self_name and val is not None and _is_manager_ctor(prog, f, val):
+                    out.add(d[1])
+    return out
+
+
+def is_manager_expr(e, self_name, mgr_fields) -> bool:
+    d = dotted(e)
+    return bool(d) and len(d) == 2 and d[0] == self_name and d[1] in mgr_fields
